@@ -48,7 +48,11 @@ type c12fObj struct {
 
 func c12fCodes(res string) []string { return strings.Split(res, "/") }
 
-func c12fHistory(t *rapid.T) []c12fStep {
+func c12fHistory(t *rapid.T) []c12fStep { return c12fHistoryOpt(t, true) }
+
+// c12fHistoryOpt: without the epilogue the history ends where the generator ends it - a state that a fixed closing
+// sequence of pushes would repair stays visible.
+func c12fHistoryOpt(t *rapid.T, epilogue bool) []c12fStep {
 	repos := []string{"r", "r/n"}
 	cfg := []byte("{}")
 	cfgD := dig("sha256", cfg)
@@ -285,6 +289,9 @@ func c12fHistory(t *rapid.T) []c12fStep {
 	}
 	// epilogue: both repositories are read and written once more, and collected
 	for _, rn := range repos {
+		if !epilogue {
+			break
+		}
 		rn := rn
 		steps = append(steps,
 			c12fStep{name: "epilogue tagList " + rn, repo: rn, run: func(h *olareg.Server) string {
